@@ -41,6 +41,11 @@ class BinaryExpr(Expr):
             "Program version too low to use op {}".format(self.op),
         )
 
+        # Eq and Neq take the type they require of one operand from the other operand, so their
+        # constructor accepts two operands that leave nothing; an op can only be applied to values
+        require_type(self.argLeft, TealType.anytype)
+        require_type(self.argRight, TealType.anytype)
+
         return TealBlock.FromOp(
             options, TealOp(self, self.op), self.argLeft, self.argRight
         )
